@@ -95,7 +95,7 @@ fn main() {
                     }
                 }
                 if !known {
-                    eprintln!("cannot replay: {}", line);
+                    println!("cannot replay: {}", line);
                 }
             }
             for l in &out.ops {
